@@ -1,11 +1,11 @@
 package main
 
 import (
-	"strings"
 	"fmt"
 	"go/token"
 	"go/types"
 	"sort"
+	"strings"
 
 	"golang.org/x/tools/go/ssa"
 )
@@ -1613,7 +1613,6 @@ func ruleErrorPropagation(w *World, r *Report, pfx string) {
 		r.Check(bad == "" && sawDraw, rule, "render closure error paths", w.pos(rc.Pos()), "draw/extender errors reach frame.err; buffers reset", orStr(bad, "draw error path not found"))
 	}
 }
-
 
 // containerCtxIsCancelable: every store to pState.ctx stores the context made by
 // context.WithCancel (directly or handed down as an argument by the constructor).
